@@ -276,6 +276,26 @@ theorem connect_foreign_byte_rejected (c : UInt8) (rest : Bytes) (h : ∃ b ∈ 
 -- "5,000" is rejected
 example : connectParseTimeout [53, 44, 48, 48, 48] = .invalid := by decide
 
+/-- **handler_deadline_never_later**: whatever deadline the server has put on the request's
+    context already, the handler's deadline is no later than the peer's timeout allows and no
+    later than the server's own - the earlier of the two; a peer's timeout is never dropped in
+    favour of a longer server budget, and never extends a shorter one. -/
+theorem handler_deadline_never_later (server : Option Int) (now d : Int) :
+    ∃ dl, handlerDeadline server now (.ok d) = some dl ∧ dl ≤ now + d ∧ (∀ p, server = some p → dl ≤ p) ∧
+      (dl = now + d ∨ server = some dl) := by
+  cases server with
+  | none => exact ⟨now + d, rfl, Int.le_refl _, (by intro p h; cases h), Or.inl rfl⟩
+  | some p =>
+    by_cases h : p < now + d
+    · refine ⟨p, by simp [handlerDeadline, withTimeoutDeadline, h], by omega, ?_, Or.inr rfl⟩
+      intro q hq; cases hq; exact Int.le_refl _
+    · refine ⟨now + d, by simp [handlerDeadline, withTimeoutDeadline, h], Int.le_refl _, ?_, Or.inl rfl⟩
+      intro q hq; cases hq; omega
+
+/-- without a (valid) timeout header the server's own deadline, if any, stays -/
+theorem handler_deadline_without_header (server : Option Int) (now : Int) :
+    handlerDeadline server now .noTimeout = server := rfl
+
 /-- no header ⇒ no deadline -/
 theorem no_header_no_deadline : grpcParseTimeout [] = .noTimeout ∧ connectParseTimeout [] = .noTimeout := by
   constructor <;> rfl
